@@ -277,7 +277,7 @@ impl<W: WorldSpec> Engine<W> {
                 }
             }
         }
-        self.ms[wid].ents.clear();
+        self.ms[wid].clear_entities();
     }
 
     pub fn op_switch(&mut self, n: u8) {
@@ -391,10 +391,14 @@ impl<W: WorldSpec> Engine<W> {
             return;
         }
         let ai = a as usize % W::archs().len();
-        for i in 0..(n % 48) {
+        let n = n % 700;
+        for i in 0..n {
             let before = self.book.len();
             self.op_create(ai as u8, Lvl::Arch, mix(0xC1C1, (self.step as u64) << 16 | i as u64), false, None);
             if rt::has_violation() || self.book.len() == before {
+                return;
+            }
+            if self.book.len() > 300 {
                 return;
             }
             let ei = self.book.len() - 1;
@@ -408,6 +412,82 @@ impl<W: WorldSpec> Engine<W> {
             }
         }
         self.stats.inc("cycle_op");
+    }
+
+    /// Many creations at once (magnitude: hundreds to thousands of entities, several growths);
+    /// only every 41st handle goes into the book, all of them into the model.
+    pub fn op_bulk(&mut self, a: u8, n: u32, p: u64) {
+        if !self.cur_alive() {
+            return;
+        }
+        let ai = a as usize % W::archs().len();
+        let n = n.min(5000);
+        for i in 0..n {
+            self.book_skip = i % 41 != 0;
+            self.op_create(ai as u8, if i % 3 == 0 { Lvl::World } else { Lvl::Arch }, mix(p, i as u64), false, None);
+            self.book_skip = false;
+            if rt::has_violation() {
+                return;
+            }
+        }
+        self.stats.inc("bulk_create");
+        if n >= 256 {
+            self.stats.inc("bulk_create_ge256");
+        }
+    }
+
+    /// Destroys every `stride`-th entity of the archetype in dense order (typed and dynamic keys).
+    pub fn op_bulk_destroy(&mut self, a: u8, stride: u32, phase: u32) {
+        if !self.cur_alive() {
+            return;
+        }
+        let wid = self.cur;
+        let ai = a as usize % W::archs().len();
+        let d = W::archs()[ai];
+        let stride = stride.max(1) as usize;
+        let ents = d.entities(self.ws[wid].as_ref().unwrap());
+        let mut n = 0u32;
+        for (i, b) in ents.iter().enumerate() {
+            if (i + phase as usize) % stride != 0 {
+                continue;
+            }
+            let any = match any_from_bits(*b) {
+                Some(x) => x,
+                None => continue,
+            };
+            if !self.cfg.wrapping && (near_max(*b as u32 as u64) || near_max(self.ms[wid].archs[ai].ver)) {
+                break;
+            }
+            let key = if n % 2 == 0 { Key::T(any) } else { Key::A(any) };
+            let w = self.ws[wid].as_mut().unwrap();
+            match catch(|| d.destroy(w, if n % 3 == 0 { Lvl::World } else { Lvl::Arch }, key)) {
+                Ok(Destroyed::Absent) => {
+                    vio("C01", "live-handle-rejected-by-destroy", format!("bulk destroy: destroy({:?}) of a listed entity returned None", key));
+                    return;
+                }
+                Ok(Destroyed::Comps(obs)) => {
+                    let want = self.ms[wid].ents.get(b).map(|r| r.cols.clone());
+                    if Some(&obs) != want.as_ref() {
+                        vio("C02", "destroy-returned-other-values", format!("bulk destroy of {:#x} returned {:?}, the entity's values are {:?}", b, obs, want));
+                        return;
+                    }
+                    self.ms[wid].remove(*b, self.cfg.wrapping);
+                }
+                Ok(Destroyed::Unit) => {
+                    if self.ms[wid].remove(*b, self.cfg.wrapping).is_none() {
+                        vio("C06", "presented-non-live", format!("entities() listed {:#x}, which the model does not know", b));
+                        return;
+                    }
+                }
+                Err(c) => {
+                    vio("C10", "unexpected-panic", format!("bulk destroy panicked: {}", c.msg));
+                    return;
+                }
+            }
+            n += 1;
+        }
+        self.stats.inc("bulk_destroy");
+        self.stats.add("destroy_ok", n as u64);
     }
 
     pub fn op_replace_arch(&mut self, a: u8) {
@@ -590,6 +670,8 @@ impl<W: WorldSpec> Engine<W> {
             Op::Nest { accs, at } => self.op_nest(accs, *at),
             Op::ReplaceArch { a, .. } => self.op_replace_arch(*a),
             Op::AuditAll => self.audit_all_worlds(),
+            Op::Bulk { a, n, p } => self.op_bulk(*a, *n, *p),
+            Op::BulkDestroy { a, stride, phase } => self.op_bulk_destroy(*a, *stride, *phase),
         }
     }
 
